@@ -7,6 +7,8 @@ import (
 	"strings"
 
 	"github.com/paulmach/orb"
+	"github.com/paulmach/orb/encoding/mvt"
+	"github.com/paulmach/orb/geojson"
 	"github.com/paulmach/orb/planar"
 	"github.com/paulmach/orb/simplify"
 )
@@ -19,7 +21,20 @@ import (
 //	     A = simplifier(kind,t1,k1) on the line (L: .LineString, R: .Ring)
 //	     B = the same simplifier run again on a copy of A        (idempotence)
 //	     C = simplifier(kind,t2,k2) on a fresh copy of the input (nesting partner, t1 <= t2, k2 <= k1)
-//	geom <kind> <t> <k> <gval>  =>  <Simplify(g)> | <typed method on g, or "none">
+//	long  — same format and runs as line (vertex lists of 32/64/128 vertices; the driver judges them by the
+//	        Float twin and the structural clauses only)
+//	seq <kind> <t> <k> <m> (<L|R> <n pts>)*m  =>  <r1> | … | <rm>
+//	     ONE simplifier value, built once, run on the m vertex lists in order (L: .LineString, R: .Ring):
+//	     anything a simplifier remembers from one call to the next is visible here
+//	geom <kind> <t> <k> <gval>  =>  <Simplify(g)> | <typed method on g, or "none"> | <Simplify(result) again>
+//	     the third part reuses the simplifier VALUE of the first on its own result;
+//	     <gval> may hold nil members (gsN: nil rings / lines / polygons, typed-nil and nil-interface
+//	     collection members)
+//	alias — same as geom, but the vertex lists of the value are windows of ONE backing array, each
+//	        followed directly by the next (spare capacity of a ring IS the next ring); a guard window
+//	        at the end is checked after every call (outcome "clobber" if it was written)
+//	mvt <kind> <t> <k> <nl> (<nf> <gval>*nf)*nl  =>  <nl> (<kept> (<feature index> <geometry>)*kept)*nl
+//	     mvt.Layers.Simplify with one simplifier value over all features of all layers
 //
 // kind: dp (Douglas-Peucker), rs (Radial with planar.DistanceSquared), rd (Radial with planar.Distance),
 // vs (Visvalingam(t, k); VisvalingamThreshold / VisvalingamKeep when k = 0 / t = MaxFloat64).
@@ -64,7 +79,7 @@ func runLineOn(s orb.Simplifier, lr string, ps []orb.Point) []orb.Point {
 func runC12(op string, in []string) string {
 	return guard(func() string {
 		switch op {
-		case "line":
+		case "line", "long":
 			r := &tokReader{t: in}
 			kind := r.next()
 			t1 := r.f()
@@ -85,53 +100,115 @@ func runC12(op string, in []string) string {
 			}
 			pc := guard(func() string { return spts(runLineOn(mkSimplifier(kind, t2, k2), lr, clonePts(ps))) })
 			return pa + " | " + pb + " | " + pc
-		case "geom":
+		case "seq":
+			r := &tokReader{t: in}
+			kind := r.next()
+			t := r.f()
+			k := r.int()
+			m := r.int()
+			s := mkSimplifier(kind, t, k) // ONE value for all m calls
+			parts := make([]string, m)
+			for i := 0; i < m; i++ {
+				lr := r.next()
+				ps := r.pts()
+				parts[i] = guard(func() string { return spts(runLineOn(s, lr, ps)) })
+			}
+			return strings.Join(parts, " | ")
+		case "geom", "alias":
 			kind := in[0]
 			t := pf(in[1])
 			k := pi(in[2])
 			rest := in[3:]
-			p1 := guard(func() string {
+			build := func() (orb.Geometry, func() bool) {
 				g, _ := parseGeom(rest)
-				return gs(mkSimplifier(kind, t, k).Simplify(g))
+				if op == "alias" {
+					return c12Alias(g)
+				}
+				return g, func() bool { return true }
+			}
+			var s1 orb.Simplifier
+			var r1 orb.Geometry
+			p1 := guard(func() string {
+				g, intact := build()
+				s1 = mkSimplifier(kind, t, k)
+				r1 = s1.Simplify(g)
+				if !intact() {
+					return "clobber"
+				}
+				return gs(r1)
 			})
 			p2 := guard(func() string {
-				g, _ := parseGeom(rest)
+				g, intact := build()
 				s := mkSimplifier(kind, t, k)
+				out := "none"
 				switch v := g.(type) {
 				case orb.LineString:
-					if v == nil {
-						return "none"
+					if v != nil {
+						out = gs(s.LineString(v))
 					}
-					return gs(s.LineString(v))
 				case orb.MultiLineString:
-					if v == nil {
-						return "none"
+					if v != nil {
+						out = gs(s.MultiLineString(v))
 					}
-					return gs(s.MultiLineString(v))
 				case orb.Ring:
-					if v == nil {
-						return "none"
+					if v != nil {
+						out = gs(s.Ring(v))
 					}
-					return gs(s.Ring(v))
 				case orb.Polygon:
-					if v == nil {
-						return "none"
+					if v != nil {
+						out = gs(s.Polygon(v))
 					}
-					return gs(s.Polygon(v))
 				case orb.MultiPolygon:
-					if v == nil {
-						return "none"
+					if v != nil {
+						out = gs(s.MultiPolygon(v))
 					}
-					return gs(s.MultiPolygon(v))
 				case orb.Collection:
-					if v == nil {
-						return "none"
+					if v != nil {
+						out = gs(s.Collection(v))
 					}
-					return gs(s.Collection(v))
 				}
-				return "none"
+				if !intact() {
+					return "clobber"
+				}
+				return out
 			})
-			return p1 + " | " + p2
+			p3 := "panic"
+			if p1 != "panic" && p1 != "clobber" {
+				p3 = guard(func() string { return gs(s1.Simplify(r1)) }) // same simplifier value, its own result
+			}
+			return p1 + " | " + p2 + " | " + p3
+		case "mvt":
+			r := &tokReader{t: in}
+			kind := r.next()
+			t := r.f()
+			k := r.int()
+			nl := r.int()
+			layers := make(mvt.Layers, nl)
+			for i := range layers {
+				nf := r.int()
+				fs := make([]*geojson.Feature, nf)
+				for j := range fs {
+					f := geojson.NewFeature(r.geom())
+					f.ID = j
+					f.Properties["i"] = j
+					fs[j] = f
+				}
+				layers[i] = &mvt.Layer{Name: "l" + strconv.Itoa(i), Version: 2, Extent: 4096, Features: fs}
+			}
+			layers.Simplify(mkSimplifier(kind, t, k))
+			var sb strings.Builder
+			sb.WriteString(strconv.Itoa(len(layers)))
+			for _, l := range layers {
+				sb.WriteString(" " + strconv.Itoa(len(l.Features)))
+				for _, f := range l.Features {
+					id, ok := f.ID.(int)
+					if !ok || f.Properties["i"] != id {
+						id = -1 // the feature lost its identity
+					}
+					sb.WriteString(" " + strconv.Itoa(id) + " " + gs(f.Geometry))
+				}
+			}
+			return sb.String()
 		}
 		return "badop"
 	})
@@ -343,6 +420,175 @@ func c12Grid(c *Ctx, g, n int, ctr *int) {
 	}
 }
 
+
+// c12MapLists rebuilds g with every (non-nil) vertex list of a line string, ring, multi line string,
+// polygon or multi polygon replaced by f(list); collections recursively; multi points untouched.
+func c12MapLists(g orb.Geometry, f func([]orb.Point) []orb.Point) orb.Geometry {
+	switch v := g.(type) {
+	case orb.LineString:
+		if v == nil {
+			return v
+		}
+		return orb.LineString(f(v))
+	case orb.Ring:
+		if v == nil {
+			return v
+		}
+		return orb.Ring(f(v))
+	case orb.MultiLineString:
+		for i := range v {
+			if v[i] != nil {
+				v[i] = orb.LineString(f(v[i]))
+			}
+		}
+		return v
+	case orb.Polygon:
+		for i := range v {
+			if v[i] != nil {
+				v[i] = orb.Ring(f(v[i]))
+			}
+		}
+		return v
+	case orb.MultiPolygon:
+		for i := range v {
+			for j := range v[i] {
+				if v[i][j] != nil {
+					v[i][j] = orb.Ring(f(v[i][j]))
+				}
+			}
+		}
+		return v
+	case orb.Collection:
+		for i := range v {
+			v[i] = c12MapLists(v[i], f)
+		}
+		return v
+	}
+	return g
+}
+
+// c12Alias lays all vertex lists of g out as consecutive windows of ONE backing array (the spare
+// capacity of every list is the next list), followed by a guard window.  The returned function
+// reports whether the guard is still intact.
+func c12Alias(g orb.Geometry) (orb.Geometry, func() bool) {
+	total := 0
+	c12MapLists(g, func(l []orb.Point) []orb.Point { total += len(l); return l })
+	const guardN = 4
+	buf := make([]orb.Point, total+guardN)
+	guardAt := func(i int) orb.Point { return orb.Point{-7.5e8 - float64(i), 6.25e8 + float64(i)} }
+	for i := 0; i < guardN; i++ {
+		buf[total+i] = guardAt(i)
+	}
+	off := 0
+	g = c12MapLists(g, func(l []orb.Point) []orb.Point {
+		w := buf[off : off+len(l)]
+		copy(w, l)
+		off += len(l)
+		return w
+	})
+	return g, func() bool {
+		for i := 0; i < guardN; i++ {
+			if buf[total+i] != guardAt(i) {
+				return false
+			}
+		}
+		return true
+	}
+}
+
+// c12NilMembers puts nil interfaces in place of some collection members (to depth 2).
+func c12NilMembers(r *rand.Rand, g orb.Geometry) orb.Geometry {
+	if c, ok := g.(orb.Collection); ok {
+		for i := range c {
+			if r.Intn(5) == 0 {
+				c[i] = nil
+			} else {
+				c[i] = c12NilMembers(r, c[i])
+			}
+		}
+	}
+	return g
+}
+
+// c12HolePolygon: an outer ring and 2..4 holes of very different sizes, so that under one threshold
+// some holes collapse (and are dropped) while later ones survive, in every order; some holes are
+// degenerate (0..2 points) from the start.
+func c12HolePolygon(r *rand.Rand) orb.Polygon {
+	nh := 2 + r.Intn(3)
+	pg := make(orb.Polygon, 0, nh+1)
+	pg = append(pg, orb.Ring{{0, 0}, {20, 0}, {40, 0}, {40, 40}, {20, 41}, {0, 40}, {0, 0}})
+	shapes := [][]orb.Point{
+		{{0, 0}, {1, 0}, {1, 1}, {0, 1}, {0, 0}},
+		{{0, 0}, {2, 0}, {1, 2}, {0, 0}},
+		{{0, 0}, {1, 0}, {2, 1}, {2, 2}, {0, 2}, {0, 0}},
+		{{0, 0}, {2, 0}, {2, 1}, {2, 2}, {0, 2}},
+		{{0, 0}, {1, 1}, {0, 0}},
+	}
+	for h := 0; h < nh; h++ {
+		if r.Intn(6) == 0 { // degenerate from the start
+			pg = append(pg, orb.Ring(c12Line(r, CoordSmallInt, 2, false)))
+			continue
+		}
+		sh := shapes[r.Intn(len(shapes))]
+		sc := []float64{0.125, 0.5, 1, 4, 8}[r.Intn(5)]
+		cx, cy := float64(2+r.Intn(20)), float64(2+r.Intn(20))
+		ring := make(orb.Ring, len(sh))
+		for i, p := range sh {
+			ring[i] = orb.Point{cx + sc*p[0], cy + sc*p[1]}
+		}
+		pg = append(pg, ring)
+	}
+	return pg
+}
+
+// c12LongLine: n vertices on the 3x3 grid (ties everywhere: a deep heap, a deep Douglas-Peucker stack)
+// or a +-1 random walk on small integers.
+func c12LongLine(r *rand.Rand, n int, closed bool) []orb.Point {
+	ps := make([]orb.Point, n)
+	walk := r.Intn(3) == 0
+	for i := range ps {
+		if walk && i > 0 {
+			ps[i] = orb.Point{ps[i-1][0] + float64(r.Intn(3)-1), ps[i-1][1] + float64(r.Intn(3)-1)}
+		} else {
+			ps[i] = orb.Point{float64(r.Intn(3)), float64(r.Intn(3))}
+		}
+	}
+	if closed {
+		ps[n-1] = ps[0]
+	}
+	return ps
+}
+
+func c12Long(c *Ctx) {
+	r := c.Rng
+	per := 10
+	if c.Tier == "thorough" {
+		per = 60
+	}
+	type sp struct {
+		kind   string
+		t1, t2 float64
+	}
+	specs := []sp{{"dp", 0, 0.5}, {"dp", 0.5, 1}, {"dp", 1, 1.5}, {"dp", 1.5, 2}, {"rs", 0, 1}, {"rs", 2, 4}, {"rd", 1, 2},
+		{"vs", 0, 0.25}, {"vs", 0.25, 0.5}, {"vs", 0.5, 1}, {"vs", 1, 2}, {"vs", 2, math.MaxFloat64}, {"vs", math.MaxFloat64, math.MaxFloat64}}
+	for _, n := range []int{32, 64, 128} {
+		for i := 0; i < per && !c.Exhausted(); i++ {
+			lr := []string{"L", "R"}[r.Intn(2)]
+			ps := c12LongLine(r, n, lr == "R" && r.Intn(4) != 0 || lr == "L" && r.Intn(5) == 0)
+			s := specs[r.Intn(len(specs))]
+			k1, k2 := 0, 0
+			if s.kind == "vs" {
+				k1 = []int{0, 0, 2, 3, 4, n / 2, n - 1, 2 + r.Intn(n)}[r.Intn(8)]
+				k2 = k1
+				if k1 > 2 && r.Intn(2) == 0 {
+					k2 = 2 + r.Intn(k1-1)
+				}
+			}
+			c.Case("long", s.kind+" "+fb(s.t1)+" "+strconv.Itoa(k1)+" "+fb(s.t2)+" "+strconv.Itoa(k2)+" "+lr+" "+spts(ps))
+		}
+	}
+}
+
 func genC12(c *Ctx) {
 	r := c.Rng
 	ctr := 0
@@ -379,6 +625,49 @@ func genC12(c *Ctx) {
 				}
 			}
 		}
+		// the overflow witness of known finding C12-vis-inf-area-sentinel and its neighbours
+		// (finite coordinates, triangle areas that overflow float64)
+		big := []orb.Point{{0, 0}, {1e200, 0}, {0, 1e200}}
+		big5 := []orb.Point{{0, 0}, {1e200, 0}, {1e200, 1e200}, {0, 1e200}, {0, 0}}
+		for _, ps := range [][]orb.Point{big, big5} {
+			for _, lr := range []string{"L", "R"} {
+				for k := 0; k <= 4; k++ {
+					if k == 1 {
+						continue
+					}
+					lineCase(c, "vs", math.MaxFloat64, k, math.MaxFloat64, k, lr, ps)
+					lineCase(c, "vs", 1, k, math.MaxFloat64, k, lr, ps)
+				}
+			}
+		}
+		// one simplifier value over a line, then rings (default keep counts must be resolved per call)
+		ring8 := []orb.Point{{0, 0}, {2, 0}, {4, 1}, {5, 3}, {4, 5}, {2, 6}, {0, 4}, {0, 0}}
+		open7 := ring8[:7]
+		for _, t := range []float64{0, 1, 100, math.MaxFloat64} {
+			for _, k := range []int{0, 2, 3} {
+				c.Case("seq", "vs "+fb(t)+" "+strconv.Itoa(k)+" 4 L "+spts(open7)+" R "+spts(ring8)+" R "+spts(open7)+" L "+spts(ring8))
+				c.Case("seq", "vs "+fb(t)+" "+strconv.Itoa(k)+" 3 R "+spts(open7)+" R "+spts(ring8)+" L "+spts(open7))
+				c.Case("geom", "vs "+fb(t)+" "+strconv.Itoa(k)+" "+gs(orb.Polygon{orb.Ring(clonePts(open7)), orb.Ring(clonePts(ring8)), orb.Ring(clonePts(ring8))}))
+				c.Case("geom", "vs "+fb(t)+" "+strconv.Itoa(k)+" "+gs(orb.Collection{orb.LineString(clonePts(ring8)), orb.Ring(clonePts(open7)), orb.Ring(clonePts(ring8))}))
+			}
+		}
+		for _, kind := range []string{"dp", "rs", "rd"} {
+			for _, t := range []float64{0, 1, 3} {
+				c.Case("seq", kind+" "+fb(t)+" 0 3 L "+spts(open7)+" R "+spts(ring8)+" R "+spts(open7))
+			}
+		}
+		// nil members of a collection: nil interface, nil multi point (both come back nil), typed nil slices
+		for _, kind := range []string{"dp", "rs", "rd", "vs"} {
+			c.Case("geom", kind+" "+fb(1)+" 0 C 3 nil nMP nLS")
+			c.Case("geom", kind+" "+fb(1)+" 0 C 2 nil C 2 nil MP 0")
+			c.Case("geom", kind+" "+fb(1)+" 0 C 4 nR nPG nMPG nC")
+			c.Case("geom", kind+" "+fb(1)+" 0 C 3 nMLS LS "+spts(ring8)+" nil")
+			c.Case("geom", kind+" "+fb(1)+" 0 PG 3 "+spts(ring8)+" n "+spts(ring8))
+			c.Case("geom", kind+" "+fb(1)+" 0 MPG 3 n 1 "+spts(ring8)+" 2 n "+spts(ring8))
+			c.Case("mvt", kind+" "+fb(1)+" 0 2 3 nil LS "+spts(ring8)+" nLS 2 P "+fb(1)+" "+fb(2)+" PG 1 "+spts(ring8))
+			c.Case("mvt", kind+" "+fb(1)+" 0 0")
+			c.Case("mvt", kind+" "+fb(1)+" 0 1 0")
+		}
 	}
 	// exhaustive short lines on small grids
 	c12Grid(c, 3, 1, &ctr)
@@ -389,6 +678,8 @@ func genC12(c *Ctx) {
 		c12Grid(c, 3, 5, &ctr)
 		c12Grid(c, 4, 4, &ctr)
 	}
+	// long lines (32 / 64 / 128 vertices)
+	c12Long(c)
 	// random family
 	modes := []CoordMode{CoordSmallInt, CoordSmallInt, CoordInt, CoordHalf, CoordFloat, CoordFloat}
 	for k := 0; k < c.Budget && !c.Exhausted(); k++ {
@@ -427,8 +718,11 @@ func genC12(c *Ctx) {
 			lineCase(c, kind, t1, k1, t2, k2, lr, ps)
 		}
 		// every geometry kind through the generic entry point
-		o := GenOpts{Mode: mode, MaxPts: 7, MaxDepth: 2, TopNil: true}
+		o := GenOpts{Mode: mode, MaxPts: 7, MaxDepth: 2, TopNil: true, InnerNil: true}
 		g := genGeom(r, o, 0)
+		if r.Intn(3) == 0 {
+			g = c12NilMembers(r, g)
+		}
 		kind := c12Kind(r)
 		var all []orb.Point
 		forEachVertex(g, func(p *orb.Point) { all = append(all, *p) })
@@ -440,7 +734,10 @@ func genC12(c *Ctx) {
 		if kind == "vs" {
 			kk = c12Keep(r, 5)
 		}
-		c.Case("geom", kind+" "+fb(t)+" "+strconv.Itoa(kk)+" "+gs(g))
+		c.Case("geom", kind+" "+fb(t)+" "+strconv.Itoa(kk)+" "+gsN(g))
+		if r.Intn(8) == 0 {
+			c.Case("alias", kind+" "+fb(t)+" "+strconv.Itoa(kk)+" "+gsN(g))
+		}
 		if r.Intn(3) == 0 { // a polygon / multipolygon built from c12 rings (more vertices, closed rings)
 			np := 1 + r.Intn(2)
 			mp := make(orb.MultiPolygon, np)
@@ -457,6 +754,77 @@ func genC12(c *Ctx) {
 				gg = mp[0]
 			}
 			c.Case("geom", kind+" "+fb(t)+" "+strconv.Itoa(kk)+" "+gs(gg))
+			if r.Intn(2) == 0 {
+				c.Case("alias", kind+" "+fb(t)+" "+strconv.Itoa(kk)+" "+gs(gg))
+			}
+		}
+		if r.Intn(3) == 0 { // holes of very different sizes: some collapse and are dropped, later ones survive
+			hk := c12Kind(r)
+			ht := []float64{0, 0.25, 0.5, 1, 2, 3, 5, 10, 100}[r.Intn(9)]
+			hkk := 0
+			if hk == "vs" {
+				hkk = []int{0, 2, 2, 3, 4}[r.Intn(5)]
+				if r.Intn(3) == 0 {
+					ht = math.MaxFloat64
+				}
+			}
+			var hg orb.Geometry = c12HolePolygon(r)
+			switch r.Intn(4) {
+			case 0:
+				hg = orb.MultiPolygon{c12HolePolygon(r), hg.(orb.Polygon)}
+			case 1:
+				hg = orb.Collection{hg, orb.MultiPolygon{c12HolePolygon(r)}}
+			}
+			op := "geom"
+			if r.Intn(4) == 0 {
+				op = "alias"
+			}
+			c.Case(op, hk+" "+fb(ht)+" "+strconv.Itoa(hkk)+" "+gs(hg))
+		}
+		if r.Intn(2) == 0 { // one simplifier value over several vertex lists
+			m := 2 + r.Intn(3)
+			var all []orb.Point
+			items := ""
+			for i := 0; i < m; i++ {
+				lr := []string{"L", "R"}[r.Intn(2)]
+				ps := c12Line(r, mode, 10, lr == "R")
+				all = append(all, ps...)
+				items += " " + lr + " " + spts(ps)
+			}
+			if len(all) > 14 {
+				all = all[:14]
+			}
+			sk := c12Kind(r)
+			st := c12Threshold(r, sk, all, mode)
+			skk := 0
+			if sk == "vs" {
+				skk = c12Keep(r, 6)
+			}
+			c.Case("seq", sk+" "+fb(st)+" "+strconv.Itoa(skk)+" "+strconv.Itoa(m)+items)
+		}
+		if r.Intn(6) == 0 { // mvt.Layers.Simplify
+			nl := r.Intn(3)
+			var sb strings.Builder
+			var all []orb.Point
+			for i := 0; i < nl; i++ {
+				nf := r.Intn(5)
+				sb.WriteString(" " + strconv.Itoa(nf))
+				for j := 0; j < nf; j++ {
+					fg := genGeom(r, GenOpts{Mode: mode, MaxPts: 7, MaxDepth: 1, TopNil: true, InnerNil: true}, 0)
+					forEachVertex(fg, func(p *orb.Point) { all = append(all, *p) })
+					sb.WriteString(" " + gsN(fg))
+				}
+			}
+			if len(all) > 12 {
+				all = all[:12]
+			}
+			mk := c12Kind(r)
+			mt := c12Threshold(r, mk, all, mode)
+			mkk := 0
+			if mk == "vs" {
+				mkk = c12Keep(r, 5)
+			}
+			c.Case("mvt", mk+" "+fb(mt)+" "+strconv.Itoa(mkk)+" "+strconv.Itoa(nl)+sb.String())
 		}
 	}
 }
